@@ -425,19 +425,36 @@ def kd_rules(ctx: Ctx, rs: RuleSet, L: str, helpers):
                         n.target.elts[1].elts[0], ast.Name):
       idx_var = n.target.elts[0].id
       name_var = n.target.elts[1].elts[0].id
-  for n in walk_function(f.node):
-    if isinstance(n, ast.If) and kinds_on_branch(n.test, True) == {
-        'POSITIONAL_ONLY'}:
-      for s in n.body:
-        if isinstance(s, ast.Assign) and isinstance(
-            s.targets[0], ast.Subscript) and isinstance(
-                s.targets[0].slice, ast.Name) and s.targets[0].slice.id == idx_var:
-          ok_idx = True
-      for s in n.orelse:
-        if isinstance(s, ast.Assign) and isinstance(
-            s.targets[0], ast.Subscript) and isinstance(
-                s.targets[0].slice, ast.Name) and s.targets[0].slice.id == name_var:
-          ok_name = True
+  from fdlstatic.rules.sigrules import reachable_for_kind
+  g_oa = ctx.cfg(f)
+  head = [n for n in g_oa.nodes() if g_oa.kind[n] == 'for' and isinstance(
+      g_oa.stmt[n].iter, ast.Call) and unparse(
+          g_oa.stmt[n].iter.func) == 'enumerate']
+  if head:
+    h = head[0]
+    starts = [m for m, lab in g_oa.succ[h] if lab == 'iter']
+
+    def store_nodes(key_var):
+      return [n for n in g_oa.nodes() if g_oa.kind[n] == 'stmt' and isinstance(
+          g_oa.stmt[n], ast.Assign) and isinstance(
+              g_oa.stmt[n].targets[0], ast.Subscript) and isinstance(
+                  g_oa.stmt[n].targets[0].slice, ast.Name) and
+              g_oa.stmt[n].targets[0].slice.id == key_var and
+              g_oa.dominated_by(n, {h}, labels=cfg_lib.NO_EXC)]
+
+    def kinds_reaching_store(nodes):
+      return {k for k in ('POSITIONAL_ONLY', 'POSITIONAL_OR_KEYWORD',
+                          'KEYWORD_ONLY', 'VAR_POSITIONAL', 'VAR_KEYWORD')
+              if any(reachable_for_kind(g_oa, starts, n, k, None, {h})
+                     for n in nodes)}
+    by_idx = kinds_reaching_store(store_nodes(idx_var))
+    by_name = kinds_reaching_store(store_nodes(name_var))
+    # index keys for positional-only (and *args elements), names for the
+    # keyword-capable kinds - and never the other way round
+    ok_idx = 'POSITIONAL_ONLY' in by_idx and not (
+        by_idx & {'POSITIONAL_OR_KEYWORD', 'KEYWORD_ONLY'})
+    ok_name = {'POSITIONAL_OR_KEYWORD', 'KEYWORD_ONLY'} <= by_name and (
+        'POSITIONAL_ONLY' not in by_name)
   rs.check(ok_idx and ok_name, rule, f'{f.qualname}:keys',
            'POSITIONAL_ONLY -> result[index], otherwise result[name]',
            ctx.loc(f, f.node))
